@@ -126,6 +126,16 @@ BEHAVIOUR_PRESERVING += [
  ('bp_arithmetic_eval_as_iterator', [('plonky2/src/gates/arithmetic_base.rs', '        let mut constraints = Vec::with_capacity(self.num_ops);\n        for i in 0..self.num_ops {\n            let multiplicand_0 = vars.local_wires[Self::wire_ith_multiplicand_0(i)];\n            let multiplicand_1 = vars.local_wires[Self::wire_ith_multiplicand_1(i)];\n            let addend = vars.local_wires[Self::wire_ith_addend(i)];\n            let output = vars.local_wires[Self::wire_ith_output(i)];\n            let computed_output = multiplicand_0 * multiplicand_1 * const_0 + addend * const_1;\n\n            constraints.push(output - computed_output);\n        }\n\n        constraints\n    }\n\n    fn eval_unfiltered_base_one(', '        (0..self.num_ops)\n            .map(|i| {\n                let multiplicand_0 = vars.local_wires[Self::wire_ith_multiplicand_0(i)];\n                let multiplicand_1 = vars.local_wires[Self::wire_ith_multiplicand_1(i)];\n                let addend = vars.local_wires[Self::wire_ith_addend(i)];\n                let output = vars.local_wires[Self::wire_ith_output(i)];\n                let computed_output = multiplicand_0 * multiplicand_1 * const_0 + addend * const_1;\n                output - computed_output\n            })\n            .collect()\n    }\n\n    fn eval_unfiltered_base_one(')], ['C07', 'C02'], None),
 ]
 
+M += [
+ ('r6_lut_first_row_floor', [('plonky2/src/gates/lookup_table.rs', '        let first_row = self.last_lut_row + self.lut.len().div_ceil(self.num_slots) - 1;', '        let first_row = self.last_lut_row + self.lut.len() / self.num_slots;')], ['C08'], 'R08.11'),
+ ('r6_read_lut_reader_only_bound', [('plonky2/src/util/serialization/mod.rs', '        let length = self.read_usize()?;\n        let mut lut = Vec::with_capacity(length);', '        let length = self.read_usize()?;\n        if length > u16::MAX as usize {\n            return Err(IoError);\n        }\n        let mut lut = Vec::with_capacity(length);')], ['C17'], 'R17.8'),
+]
+BEHAVIOUR_PRESERVING += [
+ ('bp_lut_first_row_other_idiom', [('plonky2/src/gates/lookup_table.rs', '        let first_row = self.last_lut_row + self.lut.len().div_ceil(self.num_slots) - 1;', '        let rows_above_last = (self.lut.len() - 1) / self.num_slots;\n        let first_row = self.last_lut_row + rows_above_last;')], ['C08'], None),
+ ('bp_lut_rows_div_ceil', [('plonky2/src/gadgets/lookup.rs', '                let num_lut_rows = (self.get_luts_idx_length(lut_index) - 1) / num_lut_entries + 1;', '                let num_lut_rows = self.get_luts_idx_length(lut_index).div_ceil(num_lut_entries);')], ['C08'], None),
+ ('bp_read_lut_empty_shortcut', [('plonky2/src/util/serialization/mod.rs', '        let length = self.read_usize()?;\n        let mut lut = Vec::with_capacity(length);', '        let length = self.read_usize()?;\n        if length == 0 {\n            return Ok(Vec::new());\n        }\n        let mut lut = Vec::with_capacity(length);')], ['C17', 'C18'], None),
+]
+
 def run(name, subs, checks):
     args = [os.path.join(V, 'selftest', 'mutrun.py')]
     for f, o, n in subs:
